@@ -64,6 +64,7 @@ var props = map[string]*propCfg{
 	"C18": simProp("C18", 3500, 100000, "exploration", "each of the seven balancers as IO handler in front of a scripted next handler that records ClientContext.URL and succeeds, fails or panics; enumerated by run index: every weight vector with 1-4 servers and weights 1-4 for the per-cycle count checks of round-robin, weighted and smooth weighted round-robin (three full cycles each); sampled: success/error/panic histories with 1-6 concurrent callers and statement-level preemption in the index and counter updates (valid server, no panic, counters return to zero), least-active picks with calls parked in flight by the tape (sequential picks and picks racing with arrivals and departures) checked for membership in the set of least-loaded servers, and designed failure scenarios for the failure-aware kinds; evaluations counts picks"),
 	"C20": simProp("C20", 3000, 60000, "fault_enumeration", "CircuitBreaker as two-sided plugin of a real client in front of a scripted innermost IO handler that counts invocations and succeeds, fails or panics; enumerated by run index: every script of length 1-6 over {success, error, panic} x {no clock advance, just below, exactly at, twice the recovery time} for thresholds {0,1,2,5}, with and without mock service, in blocks of 250 scripts per run, each decision checked against the must-forward / must-reject envelope of DESIGN.md A.5; sampled: failure-heavy scripts of length 7-26, and 2-4 concurrent callers with statement-level preemption inside the breaker whose entry/exit histories are checked for linearizability against the same envelope (porcupine); evaluations counts scripts"),
 	"C19": simProp("C19", 3000, 100000, "exploration", "a real Broker on a real Service over the mock transport; 1-3 consumers (raw pollers calling '<' in a loop, with subscribe/unsubscribe operations from a control task during traffic and optional pauses longer than the heartbeat; or real Prosumers with callbacks), 1-3 producers (broker-side Push and client-side unicast/multicast/broadcast), 1-3 topics, broker Timeout and HeartBeat drawn per run so that they are crossed, stalls so that a poll time-out fires while a publish is in progress, statement-level preemption inside broker, message cache and prosumer; every message carries a unique id; after the producers finish the consumers drain; the recorded history (sub, unsub, pub, poll, callback, OnUnsubscribe) is checked for exactly-once, no foreign delivery, no loss and publish-order per (client, topic)"),
+	"C14": simProp("C14", 3000, 150000, "exploration", "2-4 tasks calling Marshal, Formatter{Simple:false}.Marshal, Marshal+Unmarshal round trips (input buffer overwritten afterwards) and the client codec on five families of struct types (nested, mutually recursive, embedded, tagged, containers of structs) that the process has never used before - every run is a fresh process, so every registry is cold - with statement-level preemption in the type registries, coder pools, struct coders, pointer decoders and converters (PCT and random policies); plus sequences on the pooled encoders and decoders alternating simple/reference mode, decoder options, failing and succeeding inputs from 1-3 tasks; every result is compared with the same call executed alone afterwards and, for round trips, with the original value"),
 	"C12": simProp("C12", 3000, 60000, "fault_enumeration", "an IO-level echo handler on a real service and raw Client.Request, so transports carry opaque attributable bytes (PRNG stream keyed by message id; some look like frame headers); half of the runs are benign (all seven transport kinds, 1-4 concurrent requesters, lengths from a boundary catalogue 0..131072, fragmenting delivery), the other half enumerate by run index the fault matrix: every single-bit corruption of a socket (96) or udp (64) frame header in each direction, declared-versus-actual length combinations in each direction, a short datagram after a larger one from another client, HTTP bodies cut by a close before Content-Length bytes arrived; raw peers are harness code speaking the wire layouts restated in DESIGN.md"),
 	"C13": simProp("C13", 1200, 30000, "fault_enumeration", "the matrix transport kind (7) x limit {0,1,7,64,1000,65499,default} x length declaration {truthful; HTTP chunked in one or many chunks; socket/udp header declaring fewer or more bytes than follow} is enumerated by run index; each run sends bodies of limit-1, limit, limit+1 and 4*limit+100 bytes (exact sizes, valid hprose calls where the size allows) through the real client or a raw peer to a real service with a counting IO plugin and a counting published function, under tape-chosen fragmenting delivery schedules"),
 	"C10": simProp("C10", 3000, 120000, "exploration", "a real client and real service over the simulated network (all seven transport kinds), 1-8 calls, 1-2 faults (peer close/reset/silence at a tape-chosen byte offset of either direction, datagram loss, dial failure, Client.Abort or context cancellation started at a tape-chosen step, slow service functions)"),
